@@ -541,6 +541,36 @@ func vFrameWrite(o *vOut, l, seed int, mode string) string {
 		delete(t.conns, conn.RemoteAddr().String())
 		t.mu.Unlock()
 		_ = t.Close()
+	case "tpcb":
+		// the same through the buffered write path (TCPMux WriteBufferSize > 0): WriteTo queues the frame
+		// in bufferedConn, its writeProcess goroutine drains it to the connection
+		t := newTCPPacketConn(tcpPacketParams{ReadBuffer: 8, LocalAddr: conn.LocalAddr(), Logger: vFrameQuietLogger()})
+		conn.endErr = io.EOF
+		bc := newBufferedConn(conn, 4*1024*1024, vFrameQuietLogger())
+		t.mu.Lock()
+		t.conns[conn.RemoteAddr().String()] = bc
+		t.mu.Unlock()
+		n, err = t.WriteTo(pkt, conn.RemoteAddr())
+		wait := 250 * time.Millisecond
+		if err != nil {
+			wait = 5 * time.Millisecond
+		}
+		for dl := time.Now().Add(wait); time.Now().Before(dl); time.Sleep(100 * time.Microsecond) {
+			conn.mu.Lock()
+			got := len(conn.writes)
+			conn.mu.Unlock()
+			if got > 0 {
+				time.Sleep(time.Millisecond) // a wrong drain would issue further writes now
+				break
+			}
+		}
+		t.mu.Lock()
+		delete(t.conns, conn.RemoteAddr().String())
+		t.mu.Unlock()
+		_ = bc.Close()
+		_ = t.Close()
+		conn.mu.Lock()
+		defer conn.mu.Unlock()
 	default:
 		return "bad-op"
 	}
@@ -584,7 +614,7 @@ func vFrameExec(o *vOut, t []string) string {
 			panic(p)
 		}
 	}()
-	if vFrameSawPanic && (t[1] == "tpc" || t[1] == "atc" || t[1] == "mux" || (t[1] == "write" && len(t) == 5 && t[4] == "tpc")) {
+	if vFrameSawPanic && (t[1] == "tpc" || t[1] == "atc" || t[1] == "mux" || (t[1] == "write" && len(t) == 5 && (t[4] == "tpc" || t[4] == "tpcb"))) {
 		return "skipped-after-panic-in-framing-function"
 	}
 	switch {
@@ -938,6 +968,9 @@ func vFrameGenOps(o *vOut, r *vRand, thorough bool, _ []string, emit func(string
 		if i < len(vFrameBoundaries)+6 || i%4 == 0 {
 			emit(fmt.Sprintf("frame write %d %d fail", l, seed))
 			emit(fmt.Sprintf("frame write %d %d tpc", l, seed))
+			if l <= receiveMTU || l > 65535 { // the buffered path is claimed for packets up to the receive MTU
+				emit(fmt.Sprintf("frame write %d %d tpcb", l, seed))
+			}
 		}
 	}
 
